@@ -398,6 +398,17 @@ func (t *TOTP) PostValidate(w http.ResponseWriter, r *http.Request) error {
 		}
 	}
 
+	// This step completes the login that the password step started, so the
+	// modules that can veto a login (lock, confirm) get to do so here too:
+	// the account may have been locked by failed codes in the meantime.
+	r = r.WithContext(context.WithValue(r.Context(), authboss.CTXKeyUser, user))
+	handled, err := t.Authboss.Events.FireBefore(authboss.EventAuth, w, r)
+	if err != nil {
+		return err
+	} else if handled {
+		return nil
+	}
+
 	authboss.PutSession(w, authboss.SessionKey, user.GetPID())
 	authboss.PutSession(w, authboss.Session2FA, "totp")
 
@@ -407,8 +418,7 @@ func (t *TOTP) PostValidate(w http.ResponseWriter, r *http.Request) error {
 
 	logger.Infof("user %s totp 2fa success", user.GetPID())
 
-	r = r.WithContext(context.WithValue(r.Context(), authboss.CTXKeyUser, user))
-	handled, err := t.Authboss.Events.FireAfter(authboss.EventAuth, w, r)
+	handled, err = t.Authboss.Events.FireAfter(authboss.EventAuth, w, r)
 	if err != nil {
 		return err
 	} else if handled {
